@@ -6,7 +6,7 @@ use crate::rng::Rng;
 use crate::snap::Snap;
 use std::collections::BTreeSet;
 
-pub const FAMILIES: &[&str] = &["grid", "dyadic", "jitter", "cosph", "wide", "tiny", "cluster"];
+pub const FAMILIES: &[&str] = &["grid", "dyadic", "jitter", "cosph", "wide", "tiny", "cluster", "extreme"];
 pub const GUARANTEES: &[&str] = &["Pseudomanifold", "PLManifold", "PLManifoldStrict"];
 
 pub fn grid_extent(dim: usize) -> i64 {
@@ -56,6 +56,13 @@ pub fn make_pool(family: &str, dim: usize, seed: u64, n: usize) -> Vec<Vec<f64>>
                 } else {
                     (0..dim).map(|_| rng.range_i64(2, 8) as f64).collect()
                 }
+            }
+            "extreme" => {
+                let vals = [
+                    0.0, -0.0, 1.0, -1.0, 2.0f64.powi(500), -(2.0f64.powi(500)), 2.0f64.powi(-500), 5e-324, -5e-324, f64::MAX / 4.0, -f64::MAX / 4.0,
+                    1e300, 1e-300, 3.0, 1e154, 1e155, 0.5,
+                ];
+                (0..dim).map(|_| *rng.pick(&vals) * if rng.chance(1, 3) { rng.range_i64(1, 3) as f64 } else { 1.0 }).collect()
             }
             "wide" => (0..dim).map(|_| (rng.range_i64(0, 1023) as f64) * (1u64 << 30) as f64).collect(),
             "tiny" => (0..dim).map(|_| (rng.range_i64(0, 1023) as f64) / (1u64 << 30) as f64).collect(),
@@ -173,6 +180,8 @@ pub struct Gen {
     /// vertices that were present once and are gone (for "former vertex" probes)
     pub former: Vec<VSpec>,
     pub max_vertices: usize,
+    /// per-mille probability that an inserted vertex carries a non-finite coordinate
+    pub nonfinite_permille: u64,
 }
 
 fn present(snap: &Snap, p: &[f64]) -> bool {
@@ -193,6 +202,7 @@ impl Gen {
             stale_verts: Vec::new(),
             former: Vec::new(),
             max_vertices: maxv,
+            nonfinite_permille: 0,
         }
     }
 
@@ -333,6 +343,12 @@ impl Gen {
                 } else {
                     self.fresh_vertex(&mut rng, snap)
                 };
+                let mut v = v;
+                if rng.below(1000) < self.nonfinite_permille {
+                    let i = rng.usize_below(self.dim);
+                    v.bits[i] = (*rng.pick(&[f64::NAN, f64::INFINITY, f64::NEG_INFINITY])).to_bits();
+                    v.approx[i] = serde_json::Value::String(format!("{:?}", f64::from_bits(v.bits[i])));
+                }
                 Op::Insert { obj, v, stats }
             }
             2 => {
